@@ -578,9 +578,7 @@ class NDRouterAdvertisement (icmp_base):
     return f
 
   def pack (self):
-    o = b'\x00' * 4 # _PAD4
-
-    o += struct.pack("!BBHII", self.hop_limit, self.flags, self.lifetime,
+    o = struct.pack("!BBHII", self.hop_limit, self.flags, self.lifetime,
         self.reachable, self.retrans_timer)
 
     for opt in self.options:
